@@ -450,6 +450,9 @@ func Run(c *hx.Ctx) error {
 		e.authzOps(c, stmts)
 	}
 
+	// parameter placement: URL vs body, duplicated and conflicting; the database acted on
+	paramOps(c, thorough)
+
 	// seeded worlds: random privilege tables, every live route x every user of the world
 	nWorlds := 2
 	if thorough {
